@@ -451,9 +451,10 @@ class MetadorGroup(MetadorNode):
         if len(segs) == 1:
             return has_first_seg
         else:
-            if nxt := self.get(segs[0]):
+            nxt = self.get(segs[0])
+            if isinstance(nxt, MetadorGroup):
                 return "/".join(segs[1:]) in nxt
-            return False
+            return False  # missing, or a dataset (nothing can be inside of it)
 
     # these we can take care of but are a bit more tricky to think through
 
